@@ -851,6 +851,30 @@ def judge_adf(text, a, queries, sort="none"):
             if kind == "complete" and got and got[0] != expected("grounded")[0]:
                 bad.append(("complete:order", "the grounded interpretation is not listed first"))
             info[kind] = len(got)
+        elif kind == "paths":
+            # judged from the implementation's own node table (append-only: the last table printed has every handle)
+            tabs = [l for l in a if " table " in l]
+            nodes = []
+            if tabs:
+                for ent in tabs[-1].split(" table ", 1)[1].split(" ", 1)[1].split(";"):
+                    v, lo, hi = ent.split(":")
+                    nodes.append((int(v), int(lo), int(hi)))
+            memo_p = {0: (1, 0), 1: (0, 1)}
+            def npaths(h):
+                if h not in memo_p:
+                    v, lo, hi = nodes[h]
+                    x, y = npaths(lo), npaths(hi)
+                    memo_p[h] = (x[0] + y[0], x[1] + y[1])
+                return memo_p[h]
+            for item in rw[1:]:
+                h, memo, naive = item.split(":")
+                h = int(h)
+                if h >= len(nodes) and h > 1:
+                    continue
+                want = "%d/%d" % npaths(h)
+                if memo != want or naive != want:
+                    bad.append(("paths:wrong", "path counts of handle %d: count cache / memoisation gives %s, plain call gives %s, the diagram has %s (to bottom / to top)" % (h, memo, naive, want)))
+                    break
         elif kind == "roundtrip":
             if "nodes_equal=1" not in r or "ac_equal=1" not in r:
                 bad.append(("roundtrip:numbering", "round trip (%s) does not reproduce the node numbering / roots: %s" % (q[1], r)))
@@ -859,7 +883,7 @@ def judge_adf(text, a, queries, sort="none"):
     # the same query asked again later (after round trips or other calls) must give the same answer
     seen = {}
     for k, q in enumerate(queries):
-        if q[0] in ("roundtrip", "table", "validate", "audit", "ops"):
+        if q[0] in ("roundtrip", "table", "validate", "audit", "ops", "paths"):
             continue
         key = tuple(q)
         r = ans.get(k)
@@ -1052,7 +1076,8 @@ def check_C12(ck, res, replay):
             kind, body = gen.gen_prog_sparse(rng, nv, queries=True)
             progs.append((body, {"nvars": nv}))
         for text, origin in adf_case_stream(res, rng, 80 if quick else 2500, 7, with_tt2=False):
-            qs = [["grounded"], ["complete"], ["stable"], ["stmca"], ["stmng", "MinModMinPathsMaxVarImp"], ["counts", "0"]]
+            qs = [["grounded"], ["complete"], ["stable"], ["stmca"], ["stmng", "MinModMinPathsMaxVarImp"], ["counts", "0"], ["paths"],
+                  ["roundtrip", "json"], ["paths"], ["depths"], ["ops", rand_ops(rng, 1)], ["paths"], ["stmcb"], ["table"]]
             adfs.append((["text " + gen.hexs(text), "sort none"] + ["q " + " ".join(q) for q in qs], {"text": text, "queries": qs}))
     outs = {}
     models = {}
@@ -1311,9 +1336,12 @@ def c14_queries(rng, b):
     how = rng.pick(["json", "nodes"])
     life = rng.below(3)
     pre = [] if life == 0 else sem          # fresh, or after computations have grown the table
-    qs = pre + [["acs"], ["depths"], ["table"], ["roundtrip", how], ["acs"], ["depths"], ["table"]] + sem
+    # after the round trip: every bookkeeping table (audit hook: unique table, variable sets, count cache,
+    # memo tables), memoised counts, and new nodes built on the imported diagram before counting again
+    after = [["audit"], ["paths"], ["counts", "0"], ["ops", rand_ops(rng, 1)], ["audit"], ["paths"], ["depths"]]
+    qs = pre + [["acs"], ["depths"], ["table"], ["roundtrip", how], ["acs"], ["depths"], ["table"]] + after + sem
     if life == 2:
-        qs += [["roundtrip", rng.pick(["json", "nodes"])], ["table"]] + sem
+        qs += [["roundtrip", rng.pick(["json", "nodes"])], ["table"], ["audit"], ["ops", rand_ops(rng, 1)], ["paths"]] + sem
     return qs
 
 
@@ -2282,6 +2310,14 @@ def check_C17(ck, res, replay):
                     if foreign(before) != foreign(post) or (req[0] not in ("add", "solve") and foreign(before) != foreign(after)):
                         res.violations.append({"key": "isolation:foreign-modified:" + req[0], "what": "a request of client %d changed a problem created by another client" % c,
                                                "events": list(run.model_lines)})
+                    # every stored problem belongs to an existing account (nothing is left behind by delete-account /
+                    # logout of a temporary user for whoever takes the name next)
+                    if req[0] in ("delacc", "logout", "update"):
+                        unames = set(u.get("username") for u in post["users"])
+                        orphans = [d for d in post["probs"] if d.get("username") not in unames]
+                        if orphans:
+                            res.violations.append({"key": "isolation:orphan-problem:" + req[0], "what": "after %s a problem of a user name that no longer exists stays in the database (%s/%s): the next account of that name inherits it" % (
+                                req[0], orphans[0].get("username"), orphans[0].get("name")), "events": list(run.model_lines)})
                     for u in after["users"]:
                         p = u.get("password")
                         if p is not None and (not p.startswith("$argon2") or any(p == x or x in p for x in pw.values())):
